@@ -59,16 +59,33 @@ def run(ctx):
             continue      # the model never reaches a write there either (Touch path / mkdir fails first)
         uniq.setdefault((s["pre"], s["n"], s["mode"], s["point"], s["occ"]), s)
     scns = list(uniq.values())
+    # Concretisation of pre = corrupt_old: the corruption KIND (the contract does not care which).  Every kind is
+    # used with every scenario that ends in an acknowledgement (mode none / killack); the other scenarios draw one.
+    rnd = random.Random(ctx.seed)
+    kinds = ["flip", "trunc", "ext", "subst", "empty"]
+    out = []
+    for s in scns:
+        if s["pre"] != "corrupt_old":
+            out.append(s)
+            continue
+        ks = kinds if s["n"] > 0 else ["ext", "subst"]
+        if s["mode"] in ("none", "killack"):
+            out += [dict(s, ck=k) for k in ks]
+        else:
+            out.append(dict(s, ck=rnd.choice(ks)))
+    scns = out
     # kill points the model does not know: every other label the source has on the PUT path
     for lab in extra_labels:
         for pre in ("none", "intact_old", "corrupt_old"):
-            scns.append({"pre": pre, "n": 3, "mode": "kill", "point": lab, "occ": 1, "extra": True})
-    rnd = random.Random(ctx.seed)
+            scns.append({"pre": pre, "n": 3, "mode": "kill", "point": lab, "occ": 1, "extra": True,
+                         "ck": rnd.choice(kinds)})
     if not ctx.thorough:
         # quick: every kill point of the 3-chunk write with the three ordinary pre-states, a seeded sample of the
         # other kill scenarios (child processes are the expensive part), everything else
         kills = [s for s in scns if s["mode"] in ("kill", "killack")]
-        core = [s for s in kills if s["n"] == 3 and s["pre"] in ("none", "intact_old", "corrupt_old") and not s.get("extra")]
+        core = [s for s in kills if not s.get("extra") and
+                ((s["n"] == 3 and s["pre"] in ("none", "intact_old", "corrupt_old")) or
+                 (s["mode"] == "killack" and s["pre"] == "corrupt_old"))]
         other = [s for s in kills if s not in core]
         rnd.shuffle(other)
         scns = core + other[:12] + [s for s in scns if s["mode"] not in ("kill", "killack")]
@@ -120,13 +137,15 @@ def run(ctx):
     for t in traces:
         h = t[0]
         if h["mode"] != "none" and h.get("reached"):
-            nontrivial.add((h["pre"], h["n"], h["mode"], h["point"], h["occ"]))
+            nontrivial.add((h["pre"], h.get("ck", ""), h["n"], h["mode"], h["point"], h["occ"]))
     ctx.extra["distinct_nontrivial"] = len(nontrivial)
     ctx.extra["labels_reached"] = len(reached)
     ctx.rule = ("scenarios = (pre-existing copy none/intact/corrupt/directory/no block dir) x (0, 1, 3 chunks) x "
                 "(kill | cancel at every yield point the model reaches, kill right after the acknowledgement, write "
                 "error at every chunk) from KeepstorePut.tla, plus a kill at every other label the instrumented source "
-                "has on the PUT path; non-trivial = the point was reached; distinct by (pre, size, mode, label, "
+                "has on the PUT path; a corrupt pre-existing copy is one of bit flip / truncated / extended (intact prefix "
+                "+ appended bytes) / substituted / zero-length, every kind with every acknowledged scenario, seeded "
+                "otherwise; non-trivial = the point was reached; distinct by (pre, corruption kind, size, mode, label, "
                 "occurrence)")
     ex = [t for t in traces if t[0]["mode"] == "kill" and t[0].get("reached")][:2] + \
          [t for t in traces if t[0]["mode"] == "cancel" and t[0].get("reached")][:1] + \
